@@ -345,19 +345,30 @@ theorem repr_needs_plain_symbols (db : Db) (q : Qty) (v : Rat)
 
 /-! ### the default (POSC) database meets the hypotheses: generated `decide +kernel` table theorems -/
 
-/-- **every one of the unit rows has a default category that resolves**: `GetDefaultCategory` answers
-a non-empty name, that name is a registered category of the row's own quantity type, and
-`Quantity(category, unit)` builds the quantity (category, unit) -/
-theorem posc_default_category_resolves : ∀ r ∈ poscDb.units,
-    ∃ c ci, getDefaultCategory poscDb r.sym = .ok (some c) ∧ c ≠ 0 ∧ poscDb.catByName c = some ci
-      ∧ ci.qtype = r.qtype ∧ newQuantity poscDb (.str c none) r.sym = .ok ⟨c, r.sym⟩ :=
+/-- **every unit row's default category is registered and has the row's quantity type**: the row's own
+`default_category` entry, else its quantity type, is a non-empty name of a registered category whose
+quantity type is the row's -/
+theorem posc_default_category_registered : ∀ r ∈ poscDb.units,
+    ∃ c ci, rowDefaultCategory poscDb r = some c ∧ c ≠ 0 ∧ poscDb.catByName c = some ci ∧ ci.qtype = r.qtype :=
   fun r hr => defaultCatOk_spec (List.all_eq_true.mp poscUnits_all_defcat r hr)
 
-/-- **every category is found under its name and accepts its own default unit** -/
-theorem posc_default_unit_accepted : ∀ ci ∈ poscDb.cats,
-    poscDb.catByName ci.name = some ci
-      ∧ newQuantity poscDb (.str ci.name none) ci.defaultUnit = .ok ⟨ci.name, ci.defaultUnit⟩ :=
-  fun ci hci => defaultUnitOk_spec (List.all_eq_true.mp poscCats_all_defunit ci hci)
+/-- **for every unit symbol of the table `GetDefaultCategory` resolves and `Quantity(category, unit)`
+builds the quantity (category, unit)** -/
+theorem posc_default_category_resolves : ∀ r ∈ poscDb.units,
+    ∃ c, getDefaultCategory poscDb r.sym = .ok (some c) ∧ c ≠ 0
+      ∧ newQuantity poscDb (.str c none) r.sym = .ok ⟨c, r.sym⟩ := by
+  intro r hr
+  obtain ⟨r', hr'⟩ := unitBySym_of_mem hr
+  have hm := (unitBySym_spec hr').1
+  obtain ⟨c, _, hc, hc0, _, _, hq⟩ :=
+    default_quantity_of_row hr' (List.all_eq_true.mp poscUnits_all_defcat r' hm)
+  exact ⟨c, hc, hc0, hq⟩
+
+/-- **every registered category accepts its own default unit**: `Quantity(c, default_unit)` builds
+the quantity (c, default unit) -/
+theorem posc_default_unit_accepted : ∀ c ci, poscDb.catByName c = some ci →
+    newQuantity poscDb (.str c none) ci.defaultUnit = .ok ⟨c, ci.defaultUnit⟩ :=
+  fun _ ci hci => defaultUnitOk_spec hci (List.all_eq_true.mp poscCats_all_defunit ci (catByName_spec hci).1)
 
 /-- **no unit symbol and no category name contains a quote, a backslash or a line break** -/
 theorem posc_no_quote_chars :
@@ -381,7 +392,7 @@ theorem posc_scalar_forms_equal : ∀ r ∈ poscDb.units, ∃ c, getDefaultCateg
       ∧ createWithQuantity poscDb .scalar q (.atom (.num v i)) kw none = .ok o
       ∧ Obj.eq o o = .ok true := by
   intro r hr
-  obtain ⟨c, _, hc, hc0, _, _, hq⟩ := posc_default_category_resolves r hr
+  obtain ⟨c, hc, hc0, hq⟩ := posc_default_category_resolves r hr
   exact ⟨c, hc, fun f g v i kw => scalar_forms_equal f g v i kw hc hc0 hq⟩
 
 /-- for every unit: the FractionScalar forms build the same object for every number -/
@@ -396,7 +407,7 @@ theorem posc_fraction_forms_equal : ∀ r ∈ poscDb.units, ∃ c, getDefaultCat
       ∧ createWithQuantity poscDb .fraction q x kw none = .ok o
       ∧ Obj.eq o o = .ok true := by
   intro r hr
-  obtain ⟨c, _, hc, hc0, _, _, hq⟩ := posc_default_category_resolves r hr
+  obtain ⟨c, hc, hc0, hq⟩ := posc_default_category_resolves r hr
   exact ⟨c, hc, fun f g x o kw hx => fraction_forms_equal f g x o kw hc hc0 hq hx⟩
 
 /-- for every unit: the Array forms build the same object for every list/tuple/1-d array -/
@@ -412,7 +423,7 @@ theorem posc_array_forms_equal : ∀ r ∈ poscDb.units, ∃ c, getDefaultCatego
       ∧ createWithQuantity poscDb .array q x kw none = .ok o
       ∧ Obj.eq o o = .ok true := by
   intro r hr
-  obtain ⟨c, _, hc, hc0, _, _, hq⟩ := posc_default_category_resolves r hr
+  obtain ⟨c, hc, hc0, hq⟩ := posc_default_category_resolves r hr
   exact ⟨c, hc, fun f g k items kw => array_forms_equal f g k items kw hc hc0 hq⟩
 
 /-- for every unit: the FixedArray forms build the same object for every container of ≥ 2 elements -/
@@ -430,7 +441,7 @@ theorem posc_fixed_forms_equal : ∀ r ∈ poscDb.units, ∃ c, getDefaultCatego
       ∧ createWithQuantity poscDb (.fixed d') q x kw (some d) = .ok o
       ∧ Obj.eq o o = .ok true := by
   intro r hr
-  obtain ⟨c, _, hc, hc0, _, _, hq⟩ := posc_default_category_resolves r hr
+  obtain ⟨c, hc, hc0, hq⟩ := posc_default_category_resolves r hr
   exact ⟨c, hc, fun f g k items kw d' hd => fixed_forms_equal f g k items kw d' hd hc hc0 hq⟩
 
 /-- for every unit and **every category that shares the unit's quantity** (any category that accepts
@@ -443,11 +454,11 @@ theorem posc_forms_with_any_category_agree (c u : Sym) (q : Qty) (f g : Option R
   have h := forms_with_category_agree f g cls x hq hx
   ⟨h.1, h.2.1, h.2.2.2⟩
 
-/-- for every category: the object built from the category alone is the one built from its default
-value and default unit, for all four classes and every FixedArray dimension -/
-theorem posc_category_only_eq_default : ∀ ci ∈ poscDb.cats, ∀ (f g : Option Rat),
-    let c := ci.name
-    let q : Qty := ⟨ci.name, ci.defaultUnit⟩
+/-- for every registered category name: the object built from the category alone is the one built
+from its default value and default unit, for all four classes and every FixedArray dimension (every
+row of the category table is registered under its name: `catByName_of_mem`) -/
+theorem posc_category_only_eq_default : ∀ c ci, poscDb.catByName c = some ci → ∀ (f g : Option Rat),
+    let q : Qty := ⟨c, ci.defaultUnit⟩
     (construct poscDb .scalar (.atom (.str c f)) .none .none = .ok ⟨q, .scalar ci.defaultValue⟩
       ∧ construct poscDb .scalar (.num ci.defaultValue) (.atom (.str ci.defaultUnit g)) (.str c f)
           = .ok ⟨q, .scalar ci.defaultValue⟩)
@@ -463,9 +474,12 @@ theorem posc_category_only_eq_default : ∀ ci ∈ poscDb.cats, ∀ (f g : Optio
         ∧ construct poscDb (.fixed d) (.seq .list (List.replicate d.toNat (.num 0 false)))
             (.atom (.str ci.defaultUnit g)) (.str c f)
           = .ok ⟨q, .fixed (.seq .list (List.replicate d.toNat (.num 0 false))) d⟩) := by
-  intro ci hci f g
-  obtain ⟨h1, h2⟩ := posc_default_unit_accepted ci hci
-  exact category_only_eq_default f g h1 h2
+  intro c ci hci f g
+  exact category_only_eq_default f g hci (posc_default_unit_accepted c ci hci)
+
+/-- all 328 rows of the category table are reachable by name, so the previous theorem covers them -/
+theorem posc_every_category_registered : ∀ ci ∈ poscDb.cats, ∃ ci', poscDb.catByName ci.name = some ci' :=
+  fun _ h => catByName_of_mem h
 
 /-- `eval(repr(s)) == s` for every Scalar with a simple quantity that can be built on the default
 database, whatever its value -/
